@@ -1,15 +1,17 @@
 import PolyVerif.Lemmas.Uniprot
+import PolyVerif.Spec.UniprotDoc
 /-
 C20 — Uniprot streaming delivers every entry once, in order, and terminates.
 
 Model: Model/Uniprot.lean (the token loop of uniprot.Parse over an abstract decoder, as a producer on the
-entries channel 0 and the errors channel 1).  Channels: Base/Chan.lean, Lemmas/Chan.lean.
+entries channel 0 and the errors channel 1: entry sends, close(entries), the kept errors, close(errors)).
+Spec: Spec/UniprotDoc.lean (documents with k entries, their text, and the token trace of that text).  Channels: Base/Chan.lean, Lemmas/Chan.lean.
 All statements are for every trace (any number of entries), every pair of capacities and every schedule
 (`Reach` = any finite interleaving; `Stuck` = the run cannot be extended).  `seq = true` is the documented
 consumer (drain entries, then errors), `seq = false` drains both concurrently.
 -/
 namespace PolyVerif.Props.C20
-open PolyVerif PolyVerif.Chan PolyVerif.Uniprot
+open PolyVerif PolyVerif.Chan PolyVerif.Uniprot PolyVerif.Spec.UniprotSpec
 
 /-- no run is infinite, whatever the stream, the capacities and the consumer; a run has at most
 `3·(entries + errors + 2) + 2` steps -/
@@ -50,19 +52,15 @@ theorem finished_outcome (t : Trace) (s : Sys Msg) (h : Finished [0, 1] (program
   | nil => rfl
   | cons e es ih => simp [ih]
 
-/-- every maximal run ends finished, if the consumer is concurrent or the error channel can hold all
-forwarded errors -/
-theorem maximal_finished (t : Trace) (seq : Bool) (entCap errCap : Nat) (hcap : seq = false ∨ numErrors t ≤ errCap)
+/-- every maximal run ends finished: both consumers, EVERY capacity of either channel (0 included).  For the
+documented sequential consumer this holds because the entries channel is closed before the first error is
+sent (`sendsBeforeClose0_program`), so the consumer has moved on to the error channel by then. -/
+theorem maximal_finished (t : Trace) (seq : Bool) (entCap errCap : Nat)
     (s : Sys Msg) (hr : Reach (consumer seq) (system entCap errCap t) s) (hs : Stuck (consumer seq) s) :
     Finished [0, 1] (program t) s := by
   cases seq with
   | false => exact stuck_concurrent (program_wf t) hr hs
-  | true =>
-    have hc : numErrors t ≤ errCap := by
-      rcases hcap with h | h
-      · cases h
-      · exact h
-    exact stuck_sequential (program_wf t) (by simpa [sends1_program] using hc) hr hs
+  | true => exact stuck_sequential (program_wf t) (sendsBeforeClose0_program t) (Nat.zero_le _) hr hs
 
 /-- WELL-FORMED STREAM with k entries: for every capacity of either channel (0 included), both consumers
 and every schedule, a maximal run has delivered exactly those k entries in document order, no error, and
@@ -73,26 +71,25 @@ theorem wellformed_delivers (t : Trace) (hclean : Clean t) (seq : Bool) (entCap 
   have h0 : numErrors t = 0 := by
     have : ¬ 1 ≤ numErrors t := fun h => (numErrors_pos_iff t).mp h hclean
     omega
-  have hf := maximal_finished t seq entCap errCap (.inr (by omega)) s hr hs
+  have hf := maximal_finished t seq entCap errCap s hr hs
   have := finished_outcome t s hf
   rw [h0] at this
   exact ⟨this.1, by simpa using this.2.1, this.2.2⟩
 
 /-- DAMAGED STREAM: a stream that is not `Clean` — the decoder reports an error somewhere (malformed, or cut
 after its first element began), or the stream ends before any element (cut before the root element: the
-empty stream, only the XML declaration / comments / white space).  Then — with a concurrent consumer, or
-with the documented sequential consumer and an error channel that can hold the forwarded errors — every
-maximal run has delivered all entries the loop met, in order (in particular those of any part `pre` of
+empty stream, only the XML declaration / comments / white space).  Then, for BOTH consumers and EVERY
+capacity of either channel (0..: in particular the documented sequential consumer with an unbuffered error
+channel), every maximal run has delivered all entries the loop met, in order (in particular those of any part `pre` of
 the stream before the damage, as a prefix), has reported every error (at least one), and both channels
 are closed and observed closed. -/
-theorem damaged_terminates (t : Trace) (hdam : ¬ Clean t) (seq : Bool) (entCap errCap : Nat)
-    (hcap : seq = false ∨ numErrors t ≤ errCap) (s : Sys Msg)
+theorem damaged_terminates (t : Trace) (hdam : ¬ Clean t) (seq : Bool) (entCap errCap : Nat) (s : Sys Msg)
     (hr : Reach (consumer seq) (system entCap errCap t) s) (hs : Stuck (consumer seq) s) :
     (∀ pre post, t.evs = pre ++ post → entriesOf pre <+: deliveredOf s) ∧
       deliveredOf s = entriesOf t.evs ∧
       (recvd 1 s.hist).length = numErrors t ∧ 1 ≤ (recvd 1 s.hist).length ∧ bothClosed s = true := by
   have herr : 1 ≤ numErrors t := (numErrors_pos_iff t).mpr hdam
-  have := finished_outcome t s (maximal_finished t seq entCap errCap hcap s hr hs)
+  have := finished_outcome t s (maximal_finished t seq entCap errCap s hr hs)
   refine ⟨fun pre post h => ?_, this.1, by simp [this.2.1], by simp [this.2.1, herr], this.2.2⟩
   rw [this.1, h, entriesOf_append]
   exact List.prefix_append _ _
@@ -135,38 +132,91 @@ theorem sticky_errors_le_two (t : Trace) (h : Sticky t) : numErrors t ≤ 2 := b
     | start => simp [isErrEv] at hev
     | entry e => simp [isErrEv] at hev
 
-/-- the property's second clause under the recorded decoder assumption: capacity 2 on the error channel
-suffices for the documented usage (uniprot.Read uses 100) -/
+/-- under the recorded decoder assumption a damaged stream yields one or two errors -/
 theorem damaged_terminates_sticky (t : Trace) (hst : Sticky t) (hdam : ¬ Clean t) (seq : Bool)
-    (entCap errCap : Nat) (hcap : seq = false ∨ 2 ≤ errCap) (s : Sys Msg)
+    (entCap errCap : Nat) (s : Sys Msg)
     (hr : Reach (consumer seq) (system entCap errCap t) s) (hs : Stuck (consumer seq) s) :
     deliveredOf s = entriesOf t.evs ∧ 1 ≤ (recvd 1 s.hist).length ∧ (recvd 1 s.hist).length ≤ 2 ∧
       bothClosed s = true := by
   have h2 := sticky_errors_le_two t hst
-  have := damaged_terminates t hdam seq entCap errCap (hcap.imp id (fun h => by omega)) s hr hs
+  have := damaged_terminates t hdam seq entCap errCap s hr hs
   exact ⟨this.2.1, this.2.2.2.1, by omega, this.2.2.2.2⟩
 
-/-- THE EXCLUDED CORNER, for ANY parser: a producer that performs `n` sends on the error channel before it
-closes the entries channel, against the documented sequential consumer and an error channel with room for
-fewer than `n` errors (e.g. unbuffered, one error), can never finish: in every reachable state it has
-panicked or still has work to do while the entries channel is open and the consumer waits on it. -/
-theorem any_parser_blocks (P : List (Op Msg)) (n : Nat) (hP : sendsBeforeClose0 P = some n)
+/-- WHY the errors are kept (defect C20-errcap-block, fixed by 1559ed9).  A parser that performs `n` sends
+on the error channel BEFORE it closes the entries channel — uniprot.Parse before the fix: one or two — can
+never finish against the documented sequential consumer when the error channel has room for fewer than `n`
+errors: in every reachable state it has panicked or still has work to do while the entries channel is open
+and the consumer waits on it.  This is a statement about that send order only; `maximal_finished` shows
+that the present order (close the entries channel first) serves every capacity. -/
+theorem report_before_close_blocks (P : List (Op Msg)) (n : Nat) (hP : sendsBeforeClose0 P = some n)
     (caps : Nat → Nat) (hcap : caps 1 < n) (s : Sys Msg) (hr : Reach sequential (init caps P) s) :
     s.panicked = true ∨ (s.prog ≠ [] ∧ (s.chans 0).closed = false ∧ seen s.hist 0 = false) :=
   sequential_blocks hP hcap hr
 
-/-- the corner for uniprot.Parse itself: more forwarded errors than the error channel holds, sequential
-consumer: the entries channel is never closed -/
-theorem errcap_too_small_blocks (t : Trace) (entCap errCap : Nat) (h : errCap < numErrors t) (s : Sys Msg)
-    (hr : Reach (consumer true) (system entCap errCap t) s) :
-    s.prog ≠ [] ∧ (s.chans 0).closed = false ∧ bothClosed s = false := by
-  have hb := sequential_blocks (caps := fun ch => if ch = 0 then entCap else errCap)
-    (sendsBeforeClose0_program t) (by simpa using h) hr
-  have hnp := (inv_reach (program_wf t) hr).noPanic
-  rcases hb with hb | hb
-  · rw [hnp] at hb; cases hb
-  · refine ⟨hb.1, hb.2.1, ?_⟩
-    simp [bothClosed, hb.2.2]
+/-! ### the content clause: documents, not traces -/
+
+theorem entriesOf_filler (n : Nat) : entriesOf (fillerEvs n) = [] := by
+  match n with
+  | 0 => rfl
+  | 1 => rfl
+  | 2 => rfl
+  | _ + 3 => rfl
+
+theorem entriesOf_docBody (es : List DocEntry) :
+    entriesOf (es.flatMap (fun e => Ev.entry e.toEntry :: fillerEvs e.filler)) = es.map DocEntry.toEntry := by
+  induction es with
+  | nil => rfl
+  | cons e es ih => simp [List.flatMap_cons, entriesOf, entriesOf_append, entriesOf_filler, ih]
+
+/-- the trace of a document carries exactly the document's entries: k of them, in document order, each
+with the accessions, names and sequence text written into it -/
+theorem docTrace_entries (d : Doc) : entriesOf (docTrace d).evs = d.entries.map DocEntry.toEntry := by
+  have hp : entriesOf (prologEvs d.prolog) = [] := by
+    match d.prolog with
+    | 0 => rfl
+    | 1 => rfl
+    | _ + 2 => rfl
+  simp only [docTrace, entriesOf_append, hp, entriesOf_docBody]
+  cases d.trailingNl <;> simp [entriesOf]
+
+theorem docTrace_clean (d : Doc) : Clean (docTrace d) := by
+  refine ⟨rfl, fun ev hev => ?_, ?_⟩
+  · simp only [docTrace, List.mem_append, List.mem_flatMap, List.mem_cons, List.not_mem_nil, or_false] at hev
+    have hfill : ∀ n, ∀ ev ∈ fillerEvs n, isErrEv ev = false := by
+      intro n; match n with
+      | 0 => decide
+      | 1 => decide
+      | 2 => decide
+      | _ + 3 => intro ev h; cases h
+    have hpro : ∀ n, ∀ ev ∈ prologEvs n, isErrEv ev = false := by
+      intro n; match n with
+      | 0 => intro ev h; cases h
+      | 1 => decide
+      | _ + 2 => intro ev h; simp only [prologEvs, List.mem_cons, List.not_mem_nil, or_false, or_self] at h; subst h; rfl
+    rcases hev with (((h | h | h) | ⟨e, _, h | h⟩) | h) | h
+    · exact hpro _ _ h
+    · subst h; rfl
+    · subst h; rfl
+    · subst h; rfl
+    · exact hfill _ _ h
+    · subst h; rfl
+    · cases hd : d.trailingNl <;> simp [hd] at h
+      subst h; rfl
+  · simp [docTrace, isStartEv]
+
+/-- CLAUSE 1 ON DOCUMENTS.  For every document `d` of the spec (any number k of entries, any accessions,
+names and sequence texts, with or without attributes, other children and material between entries), every
+capacity of either channel, both consumers and every schedule: a maximal run on the document's token trace
+has delivered exactly the k entries of `d` in document order, each with its accessions, names and
+sequence text, no error, and both channels are closed.  (That the real decoder produces `docTrace d` for
+the text `renderDoc d` is the recorded assumption, checked by the driver on every undamaged case.) -/
+theorem document_delivers (d : Doc) (seq : Bool) (entCap errCap : Nat) (s : Sys Msg)
+    (hr : Reach (consumer seq) (system entCap errCap (docTrace d)) s) (hs : Stuck (consumer seq) s) :
+    deliveredOf s = d.entries.map DocEntry.toEntry ∧ (deliveredOf s).length = d.entries.length ∧
+      recvd 1 s.hist = [] ∧ bothClosed s = true := by
+  have h := wellformed_delivers (docTrace d) (docTrace_clean d) seq entCap errCap s hr hs
+  rw [docTrace_entries] at h
+  exact ⟨h.1, by rw [h.1, List.length_map], h.2.1, h.2.2⟩
 
 /-- the scheduler run used by the driver is a maximal `Step`-path, so the theorems above apply to it -/
 theorem run_is_maximal (seq eager : Bool) (entCap errCap : Nat) (t : Trace) :
@@ -196,7 +246,14 @@ example : (recvd 1 (run true true 100 100 tProlog).hist).length = 1 ∧ bothClos
 example : deliveredOf (run true true 0 0 tGood) = [e1, e2] ∧ bothClosed (run true true 0 0 tGood) = true := by decide
 example : deliveredOf (run true false 1 2 tCut) = [e1, e2] ∧ bothClosed (run true false 1 2 tCut) = true := by decide
 example : deliveredOf (run false true 0 0 tCut) = [e1, e2] ∧ bothClosed (run false true 0 0 tCut) = true := by decide
--- the corner: documented consumer, unbuffered error channel — the run deadlocks with the entries channel open
-example : deliveredOf (run true true 5 0 tCut) = [e1] ∧ bothClosed (run true true 5 0 tCut) = false := by decide
+-- regression for C20-errcap-block: documented consumer, unbuffered error channel, damaged stream — terminates
+example : deliveredOf (run true true 5 0 tCut) = [e1, e2] ∧ bothClosed (run true true 5 0 tCut) = true ∧
+    (recvd 1 (run true true 5 0 tCut).hist).length = 2 := by decide
+example : sendsBeforeClose0 (program tCut) = some 0 := by decide
+-- a document of the spec and its trace
+def exDoc : Doc := { prolog := 2, trailingNl := true, entries :=
+  [{ accessions := ["P1".toList], names := ["AB_X".toList], seq := "MKV".toList, attrs := 1, extra := true, filler := 1 },
+   { accessions := [], names := [], seq := [], attrs := 0, extra := false, filler := 3 }] }
+example : (docTrace exDoc).evs.length = 15 ∧ entriesOf (docTrace exDoc).evs = exDoc.entries.map DocEntry.toEntry := by decide
 
 end PolyVerif.Props.C20
